@@ -262,7 +262,7 @@ func TestC06_SubsetsEnum(t *testing.T) {
 
 func TestC06_Errors(t *testing.T) {
 	c := harness.New(t, "C06", "errors",
-		"error classes of the statement, each embedded in an otherwise valid generated tree: an insert naming no reserve of the layout (block and expression form), two inserts with one name, a missing layout file, a layout that itself uses a layout; loading must fail (or, for the recursive layout, loading or rendering). Non-trivial: all. Distinct by hash.")
+		"error classes of the statement, each embedded in an otherwise valid generated tree: an insert naming no reserve of the layout (block and expression form), two inserts with one name, a missing layout file, a layout that itself uses a layout, an insert into a used file that declares no reserve at all; loading must fail (or, for the recursive layout, loading or rendering). Non-trivial: all. Distinct by hash.")
 	defer c.Finish()
 	runRapid(t, c, 600, 7500, func(rt *rapid.T) {
 		env := genProgEnv().Draw(rt, "data")
@@ -270,7 +270,7 @@ func TestC06_Errors(t *testing.T) {
 		layout, _ := genLayoutFile(rt, k)
 		page, _ := genPage(rt, env, "~main", k, nil)
 		files := refint.Files{"layouts/main": layout, "home": page}
-		kind := rapid.SampledFrom([]string{"undefined-insert-block", "undefined-insert-expr", "duplicate-insert", "missing-layout", "layout-uses-layout"}).Draw(rt, "errorKind")
+		kind := rapid.SampledFrom([]string{"undefined-insert-block", "undefined-insert-expr", "duplicate-insert", "missing-layout", "layout-uses-layout", "insert-into-layout-without-reserves"}).Draw(rt, "errorKind")
 		cs := treeCase{Dir: "t", Ext: ".tw", Page: "home", Data: env.D, LoadErr: true, Note: kind}
 		switch kind {
 		case "undefined-insert-block":
@@ -279,6 +279,14 @@ func TestC06_Errors(t *testing.T) {
 			files["home"] = append(page, &tw.Stmt{Kind: tw.SInsert, Name: "nosuch", E: tw.Str("x")})
 		case "duplicate-insert":
 			files["home"] = append(page, &tw.Stmt{Kind: tw.SInsert, Name: "r0", E: tw.Str("x")}, tw.Text("\n"), &tw.Stmt{Kind: tw.SInsert, Name: "r0", E: tw.Str("y")})
+		case "insert-into-layout-without-reserves":
+			// the used file declares no reserve at all: every insert names no reserve of it
+			files["layouts/main"] = []*tw.Stmt{tw.Text("<static>"), {Kind: tw.SIf, Branches: []tw.Branch{{Cond: tw.Bool(true), Body: []*tw.Stmt{tw.Text("body")}}}}, tw.Text("</static>")}
+			ins := &tw.Stmt{Kind: tw.SInsert, Name: rapid.SampledFrom([]string{"r0", "content", "x"}).Draw(rt, "insName"), E: tw.Str("x")}
+			if rapid.Bool().Draw(rt, "blockForm") {
+				ins = &tw.Stmt{Kind: tw.SInsert, Name: ins.Name, Block: true, Body: []*tw.Stmt{tw.Text("x")}}
+			}
+			files["home"] = []*tw.Stmt{{Kind: tw.SUse, Name: "~main"}, tw.Text("\n"), ins}
 		case "missing-layout":
 			files["home"][0] = &tw.Stmt{Kind: tw.SUse, Name: rapid.SampledFrom([]string{"~nosuch", "layouts/nosuch", "nosuch"}).Draw(rt, "missing")}
 		case "layout-uses-layout":
